@@ -384,90 +384,132 @@ struct Closure {
     converged: bool,
 }
 
-fn stage_closure(c: Cfg, universe: u64, keys: &[String], canon: &[Vec<PList>], state_cap: u64) -> Result<Closure, String> {
+enum ClErr {
+    Machinery(String),
+    Panic(String, Vec<Op>),
+}
+
+type Succ = (HashRing, u32, Vec<Op>, (u64, u64));
+
+/// Expand one state: every op, oracle on every transition; successors not yet in `seen` are returned.
+fn expand_state(
+    c: Cfg,
+    ops: &[Op],
+    keys: &[String],
+    canon: &[Vec<PList>],
+    seen: &HashSet<((u64, u64), u32)>,
+    ring: &HashRing,
+    mask: u32,
+    hist: &[Op],
+) -> Result<(Acc, Vec<Succ>, u64), String> {
+    let mut acc = Acc::default();
+    let mut succ: Vec<Succ> = Vec::new();
+    let mut effective = 0u64;
+    let before = table(ring, keys);
+    for op in ops {
+        let mut r2 = ring.clone();
+        apply(&mut r2, *op);
+        let mask2 = apply_mask(mask, *op);
+        let eff = mask2 != mask;
+        if eff {
+            effective += 1;
+        }
+        let n2 = mask2.count_ones() as usize;
+        let cn = &canon[mask2 as usize];
+        let mk_hist = || {
+            let mut h = hist.to_vec();
+            h.push(*op);
+            h
+        };
+        for (ki, k) in keys.iter().enumerate() {
+            let l = pack(&r2.get_replicas(k));
+            acc.evals += 1;
+            if n2 >= 2 && c.rf < n2 {
+                acc.nontrivial += 1;
+            }
+            if l != cn[ki] {
+                let h = mk_hist();
+                acc.hit(format!("ring placement depends on {}", history_class(&h)), || {
+                    (
+                        format!(
+                            "empty ring (vnodes={}, rf={}) after [{}] (membership {:?}): get_replicas({:?}) = {:?}, ring joined in ascending order: {:?}",
+                            c.v,
+                            c.rf,
+                            show_ops(&h),
+                            members(mask2),
+                            k,
+                            l.ids(),
+                            cn[ki].ids()
+                        ),
+                        json!({"check": "ring", "order": [], "ops": ops_json(&h), "rf": c.rf, "vnodes": c.v, "key": k}),
+                    )
+                });
+            }
+            if let Some((sig, d)) = check_list(l, mask2, c.rf) {
+                let h = mk_hist();
+                acc.hit(sig, || {
+                    (
+                        format!("empty ring (vnodes={}, rf={}) after [{}], key {:?}: {}", c.v, c.rf, show_ops(&h), k, d),
+                        json!({"check": "ring", "order": [], "ops": ops_json(&h), "rf": c.rf, "vnodes": c.v, "key": k}),
+                    )
+                });
+            }
+            if eff {
+                if let Some((sig, d)) = check_disruption(before[ki], l, *op) {
+                    let h = mk_hist();
+                    acc.hit(sig, || {
+                        (
+                            format!("empty ring (vnodes={}, rf={}) after [{}], key {:?}: {}", c.v, c.rf, show_ops(&h), k, d),
+                            json!({"check": "ring", "order": [], "ops": ops_json(&h), "rf": c.rf, "vnodes": c.v, "key": k}),
+                        )
+                    });
+                }
+            }
+        }
+        let f = fingerprint(&r2)?;
+        if !seen.contains(&(f, mask2)) {
+            succ.push((r2, mask2, mk_hist(), f));
+        }
+    }
+    Ok((acc, succ, effective))
+}
+
+/// Breadth-first closure; each level is expanded in parallel, successors are merged in frontier order.
+fn stage_closure(c: Cfg, universe: u64, keys: &[String], canon: &[Vec<PList>], state_cap: u64) -> Result<Closure, ClErr> {
     let ops: Vec<Op> = (1..=universe).flat_map(|x| [(true, x), (false, x)]).collect();
     let mut acc = Acc::default();
-    let start = HashRing::new(vec![], c.v, c.rf);
+    let start = catch_unwind(|| HashRing::new(vec![], c.v, c.rf)).map_err(|p| ClErr::Panic(vh::panic_text(&p), vec![]))?;
     let mut seen: HashSet<((u64, u64), u32)> = HashSet::new();
-    seen.insert((fingerprint(&start)?, 0));
+    seen.insert((fingerprint(&start).map_err(ClErr::Machinery)?, 0));
     let mut frontier: Vec<(HashRing, u32, Vec<Op>)> = vec![(start, 0, vec![])];
     let (mut states, mut transitions, mut effective) = (1u64, 0u64, 0u64);
     let mut depth = 0usize;
     let max_depth = 2 * universe as usize + 2;
     let mut capped = false;
     while !frontier.is_empty() && depth < max_depth && !capped {
+        let seen_ref = &seen;
+        let ops_ref = &ops;
+        let results = par::par_map(&frontier, |_, (ring, mask, hist)| {
+            match catch_unwind(AssertUnwindSafe(|| expand_state(c, ops_ref, keys, canon, seen_ref, ring, *mask, hist))) {
+                Ok(Ok(r)) => Ok(r),
+                Ok(Err(m)) => Err(ClErr::Machinery(m)),
+                Err(p) => Err(ClErr::Panic(format!("expanding the state after [{}]: {}", show_ops(hist), vh::panic_text(&p)), hist.clone())),
+            }
+        });
         let mut next = Vec::new();
-        'level: for (ring, mask, hist) in &frontier {
-            let before = table(ring, keys);
-            for op in &ops {
-                let mut r2 = ring.clone();
-                apply(&mut r2, *op);
-                let mask2 = apply_mask(*mask, *op);
-                let eff = mask2 != *mask;
-                transitions += 1;
-                if eff {
-                    effective += 1;
-                }
-                let n2 = mask2.count_ones() as usize;
-                let cn = &canon[mask2 as usize];
-                let mk_hist = || {
-                    let mut h = hist.clone();
-                    h.push(*op);
-                    h
-                };
-                for (ki, k) in keys.iter().enumerate() {
-                    let l = pack(&r2.get_replicas(k));
-                    acc.evals += 1;
-                    if n2 >= 2 && c.rf < n2 {
-                        acc.nontrivial += 1;
-                    }
-                    if l != cn[ki] {
-                        let h = mk_hist();
-                        acc.hit(format!("ring placement depends on {}", history_class(&h)), || {
-                            (
-                                format!(
-                                    "empty ring (vnodes={}, rf={}) after [{}] (membership {:?}): get_replicas({:?}) = {:?}, ring joined in ascending order: {:?}",
-                                    c.v,
-                                    c.rf,
-                                    show_ops(&h),
-                                    members(mask2),
-                                    k,
-                                    l.ids(),
-                                    cn[ki].ids()
-                                ),
-                                json!({"check": "ring", "order": [], "ops": ops_json(&h), "rf": c.rf, "vnodes": c.v, "key": k}),
-                            )
-                        });
-                    }
-                    if let Some((sig, d)) = check_list(l, mask2, c.rf) {
-                        let h = mk_hist();
-                        acc.hit(sig, || {
-                            (
-                                format!("empty ring (vnodes={}, rf={}) after [{}], key {:?}: {}", c.v, c.rf, show_ops(&h), k, d),
-                                json!({"check": "ring", "order": [], "ops": ops_json(&h), "rf": c.rf, "vnodes": c.v, "key": k}),
-                            )
-                        });
-                    }
-                    if eff {
-                        if let Some((sig, d)) = check_disruption(before[ki], l, *op) {
-                            let h = mk_hist();
-                            acc.hit(sig, || {
-                                (
-                                    format!("empty ring (vnodes={}, rf={}) after [{}], key {:?}: {}", c.v, c.rf, show_ops(&h), k, d),
-                                    json!({"check": "ring", "order": [], "ops": ops_json(&h), "rf": c.rf, "vnodes": c.v, "key": k}),
-                                )
-                            });
-                        }
-                    }
-                }
-                let f = fingerprint(&r2)?;
+        for r in results {
+            let (a, succ, eff) = r?;
+            transitions += ops.len() as u64;
+            effective += eff;
+            acc.merge(a);
+            for (r2, mask2, h, f) in succ {
                 if seen.insert((f, mask2)) {
                     states += 1;
                     if states > state_cap {
                         capped = true;
-                        break 'level;
+                    } else {
+                        next.push((r2, mask2, h));
                     }
-                    next.push((r2, mask2, mk_hist()));
                 }
             }
         }
@@ -796,13 +838,15 @@ fn run_batches(env: &mut Env, mem0: &[u64], dyn_ops: &[Op], bs: &[Vec<&str>], ac
     }
 }
 
-fn stage_route(c: Cfg, mask: u32, universe: u64, keys: &[String], small: usize) -> (Acc, BTreeSet<Vec<u64>>) {
+fn stage_route(c: Cfg, mask: u32, universe: u64, keys: &[String], small: usize, dyn_singles: usize) -> (Acc, BTreeSet<Vec<u64>>) {
     let mut acc = Acc::default();
     let mut tsets = BTreeSet::new();
     let mem = members(mask);
     let bs = batches(keys, small);
-    // without the 2/3-sequences: used after membership changes
-    let bs_dyn: Vec<Vec<&str>> = bs.iter().filter(|b| b.len() <= 1 || b.len() == keys.len()).cloned().collect();
+    // used after membership changes: empty, the first `dyn_singles` single-key batches, the whole key set
+    let mut bs_dyn: Vec<Vec<&str>> = vec![vec![]];
+    bs_dyn.extend(keys.iter().take(dyn_singles).map(|k| vec![k.as_str()]));
+    bs_dyn.push(keys.iter().map(|k| k.as_str()).collect());
     for sender in 1..=universe {
         // router by `new`: every sender, member of the ring or not
         let mut env = build_env("new", &mem, c, sender);
@@ -849,10 +893,48 @@ fn replay(r: &Value, path: &std::path::Path) -> ! {
         Some("ring") => {
             let order = ids(&r["order"]);
             let ops = ops_from_json(&r["ops"]);
-            let key = r["key"].as_str().unwrap_or("");
-            match catch_unwind(|| ring_case(&order, &ops, c, key, true)) {
-                Ok(f) => found = f,
-                Err(p) => found.push(("panic in ring".into(), vh::panic_text(&p))),
+            // a single key, or (cases recorded for a panic) the whole key set of that run
+            let ks: Vec<String> = match r["nkeys"].as_u64() {
+                Some(n) => key_set(n as usize),
+                None => vec![r["key"].as_str().unwrap_or("").to_string()],
+            };
+            for (i, key) in ks.iter().enumerate() {
+                match catch_unwind(|| ring_case(&order, &ops, c, key, i == 0)) {
+                    Ok(f) => found.extend(f),
+                    Err(p) => found.push(("ring panic while building/looking up a ring".into(), format!("key {key:?}: {}", vh::panic_text(&p)))),
+                }
+            }
+            let mut seen = BTreeSet::new();
+            found.retain(|(k, _)| seen.insert(k.clone()));
+        }
+        Some("ring-successors") => {
+            // the state reached by `ops` from the empty ring, expanded by every add/remove, all keys
+            let ops = ops_from_json(&r["ops"]);
+            let universe = r["universe"].as_u64().unwrap_or(5);
+            let keys = key_set(r["nkeys"].as_u64().unwrap_or(500) as usize);
+            let res = catch_unwind(|| {
+                let canon: Vec<Vec<PList>> = (0..(1u32 << universe)).map(|m| table(&canonical_ring(m, c), &keys)).collect();
+                let mut ring = HashRing::new(vec![], c.v, c.rf);
+                let mut mask = 0;
+                for op in &ops {
+                    apply(&mut ring, *op);
+                    mask = apply_mask(mask, *op);
+                }
+                let all: Vec<Op> = (1..=universe).flat_map(|x| [(true, x), (false, x)]).collect();
+                expand_state(c, &all, &keys, &canon, &HashSet::new(), &ring, mask, &ops)
+            });
+            println!("empty ring (vnodes={}, rf={}) after [{}], then every add_node/remove_node over 1..{universe}, {} keys", c.v, c.rf, show_ops(&ops), keys.len());
+            match res {
+                Ok(Ok((acc, _, _))) => {
+                    for (sig, (_, d, _)) in acc.find {
+                        found.push((sig, d));
+                    }
+                }
+                Ok(Err(m)) => {
+                    eprintln!("MACHINERY-FAILURE property=C19 {m}");
+                    std::process::exit(2);
+                }
+                Err(p) => found.push(("ring panic while building/looking up a ring".into(), vh::panic_text(&p))),
             }
         }
         Some("with_rf") => {
@@ -922,7 +1004,8 @@ fn main() {
     let thorough = args.tier == Tier::Thorough;
     let num = |flag: &str, d: u64| args.flag(flag).and_then(|s| s.parse::<u64>().ok()).unwrap_or(d);
     let universe = num("--nodes", if thorough { 6 } else { 5 }).clamp(1, 7);
-    let nkeys = num("--keys", if thorough { 5000 } else { 500 }) as usize;
+    let nkeys = num("--keys", if thorough { 2000 } else { 500 }) as usize;
+    let dyn_singles = num("--dyn-singles", if thorough { 300 } else { 500 }) as usize;
     let small = num("--small-batch-keys", if thorough { 8 } else { 6 }) as usize;
     let rfs: Vec<usize> = if thorough { vec![1, 2, 3, 4, 5, 6, 7] } else { vec![1, 2, 3, 5] };
     let vns: Vec<u32> = if thorough { vec![1, 2, 3, 7, 50, 150, 256] } else { vec![1, 3, 150] };
@@ -952,7 +1035,7 @@ fn main() {
                 rep.violation(
                     "ring panic while building/looking up a ring",
                     e,
-                    json!({"check": "ring", "order": members(nmask - 1), "ops": [], "rf": c.rf, "vnodes": c.v, "key": keys[0]}),
+                    json!({"check": "ring", "order": members(nmask - 1), "ops": [], "rf": c.rf, "vnodes": c.v, "key": keys[0], "nkeys": keys.len()}),
                 );
                 // nothing sensible can follow for this configuration
                 rep.finish(
@@ -1001,7 +1084,7 @@ fn main() {
             Err((e, order, c)) => {
                 panics.push(e.clone());
                 total.hit("ring panic while building/looking up a ring".into(), || {
-                    (e, json!({"check": "ring", "order": order, "ops": [], "rf": c.rf, "vnodes": c.v, "key": keys[0]}))
+                    (e, json!({"check": "ring", "order": order, "ops": [], "rf": c.rf, "vnodes": c.v, "key": keys[0], "nkeys": keys.len()}))
                 });
             }
         }
@@ -1009,17 +1092,21 @@ fn main() {
 
     // ---- stage C: closure over add/remove histories
     let state_cap = 40_000u64;
-    let mut cl_items: Vec<usize> = (0..cfgs.len()).collect();
-    cl_items.sort_by_key(|i| std::cmp::Reverse(cfgs[*i].v));
-    let res = par::par_map(&cl_items, |_, ci| {
-        let c = cfgs[*ci];
-        match catch_unwind(|| stage_closure(c, universe, &keys, &canon[*ci], state_cap)) {
-            Ok(Ok(cl)) => Ok(cl),
-            Ok(Err(machinery)) => Err((true, machinery, c)),
-            Err(p) => Err((false, format!("add_node/remove_node/get_replicas panicked during history exploration (vnodes={}, rf={}): {}", c.v, c.rf, vh::panic_text(&p)), c)),
-        }
-    });
-    let (mut cl_states, mut cl_trans, mut cl_eff, mut cl_depth, mut cl_converged, mut cl_evals) = (0u64, 0u64, 0u64, 0usize, true, 0u64);
+    let res: Vec<Result<Closure, (bool, String, Cfg, Vec<Op>)>> = cfgs
+        .iter()
+        .enumerate()
+        .map(|(ci, c)| match stage_closure(*c, universe, &keys, &canon[ci], state_cap) {
+            Ok(cl) => Ok(cl),
+            Err(ClErr::Machinery(m)) => Err((true, m, *c, vec![])),
+            Err(ClErr::Panic(p, h)) => Err((
+                false,
+                format!("add_node/remove_node/get_replicas panicked during history exploration (vnodes={}, rf={}): {}", c.v, c.rf, p),
+                *c,
+                h,
+            )),
+        })
+        .collect();
+    let (mut cl_states, mut cl_trans, mut cl_eff, mut cl_depth, mut cl_converged, mut cl_evals) = (0u64, 0u64, 0u64, usize::MAX, true, 0u64);
     let mut per_cfg_states: BTreeSet<u64> = BTreeSet::new();
     for r in res {
         match r {
@@ -1028,16 +1115,16 @@ fn main() {
                 per_cfg_states.insert(cl.states);
                 cl_trans += cl.transitions;
                 cl_eff += cl.effective_transitions;
-                cl_depth = cl_depth.max(cl.depth_completed);
+                cl_depth = cl_depth.min(cl.depth_completed);
                 cl_converged &= cl.converged;
                 cl_evals += cl.acc.evals;
                 total.merge(cl.acc);
             }
-            Err((true, m, _)) => rep.machinery_failure(&m),
-            Err((false, e, c)) => {
+            Err((true, m, _, _)) => rep.machinery_failure(&m),
+            Err((false, e, c, h)) => {
                 cl_converged = false;
                 total.hit("ring panic while building/looking up a ring".into(), || {
-                    (e, json!({"check": "ring", "order": [], "ops": [], "rf": c.rf, "vnodes": c.v, "key": keys[0]}))
+                    (e, json!({"check": "ring-successors", "ops": ops_json(&h), "universe": universe, "rf": c.rf, "vnodes": c.v, "nkeys": keys.len()}))
                 });
             }
         }
@@ -1111,7 +1198,7 @@ fn main() {
     route_items.rotate_left(r);
     let res = par::par_map(&route_items, |_, (ci, m)| {
         let c = cfgs[*ci];
-        catch_unwind(|| stage_route(c, *m, universe, &keys, small))
+        catch_unwind(|| stage_route(c, *m, universe, &keys, small, dyn_singles))
             .map_err(|p| (format!("router/ring construction panicked (members {:?}, vnodes={}, rf={}): {}", members(*m), c.v, c.rf, vh::panic_text(&p)), *m, c))
     });
     let mut target_sets: BTreeSet<Vec<u64>> = BTreeSet::new();
